@@ -84,6 +84,12 @@ DyInt(e, a, b) ==
       [] e = "eq" -> VI(IF a = b THEN 1 ELSE 0)
       [] e = "lt" -> VI(IF a < b THEN 1 ELSE 0)
       [] e = "gt" -> VI(IF a > b THEN 1 ELSE 0)
+      [] e = "le" -> VI(IF a <= b THEN 1 ELSE 0)
+      [] e = "ge" -> VI(IF a >= b THEN 1 ELSE 0)
+      \* Python %: the result takes the sign of the divisor; a zero divisor is outside the rules
+      [] e = "mod" -> IF b > 0 THEN VI(a % b) ELSE IF b < 0 THEN VI(-((-a) % (-b))) ELSE UNDEF("modulo-by-zero")
+      \* floor division; a zero divisor gives 0
+      [] e = "idiv" -> IF b > 0 THEN VI(a \div b) ELSE IF b < 0 THEN VI((-a) \div (-b)) ELSE VI(0)
       [] OTHER -> UNDEF("dyad")
 
 RECURSIVE Dy(_, _, _)
@@ -107,6 +113,14 @@ MoInt(e, a) ==
       [] e = "r0" -> IF a <= 200 THEN VL(RangeSeq(0, a - 1)) ELSE UNDEF("range-size")
       [] e = "bool" -> VI(IF a # 0 THEN 1 ELSE 0)
       [] e = "not" -> VI(IF a = 0 THEN 1 ELSE 0)
+      [] e = "sq" -> IF Abs(a) <= 30000 THEN VI(a * a) ELSE UNDEF("mul-overflow")
+      [] e = "sign" -> VI(IF a > 0 THEN 1 ELSE IF a < 0 THEN -1 ELSE 0)
+      [] e = "abs" -> VI(Abs(a))
+      [] e = "parity" -> VI(a % 2)
+      [] e = "compl" -> MkI(1 - a)
+      [] e = "halve" -> IF a % 2 = 0 THEN VI(a \div 2) ELSE UNDEF("rational")
+      [] e = "r0i" -> IF a <= 200 THEN VL(RangeSeq(0, a)) ELSE UNDEF("range-size")
+      [] e = "r1x" -> IF a <= 200 THEN VL(RangeSeq(1, a - 1)) ELSE UNDEF("range-size")
       [] OTHER -> UNDEF("monad")
 
 RECURSIVE Mo(_, _)
@@ -150,8 +164,53 @@ SortKeyed(s) == IF s = <<>> THEN <<>> ELSE InsertKeyed(SortKeyed(SubSeq(s, 1, Le
 SortInts(s) == LET r == SortKeyed([k \in 1..Len(s) |-> [v |-> s[k], key |-> s[k].i]])
                IN [k \in 1..Len(s) |-> r[k].v]
 
+(* maximum / minimum of a non-empty sequence of integers *)
+RECURSIVE MaxOf(_)
+MaxOf(s) == IF Len(s) = 1 THEN s[1].i ELSE MaxN(s[1].i, MaxOf(Tail(s)))
+RECURSIVE MinOf(_)
+MinOf(s) == IF Len(s) = 1 THEN s[1].i ELSE LET m == MinOf(Tail(s)) IN IF s[1].i < m THEN s[1].i ELSE m
+
+RECURSIVE ProdFrom(_, _)
+ProdFrom(acc, s) == IF s = <<>> THEN acc ELSE ProdFrom(Dy("mul", acc, Head(s)), Tail(s))
+RECURSIVE RunningSums(_, _)
+RunningSums(acc, s) ==       \* scanl(add): acc is the last value already emitted
+    IF s = <<>> THEN <<>> ELSE LET x == Dy("add", acc, Head(s)) IN <<x>> \o RunningSums(x, Tail(s))
+CountOf(s, x) == Cardinality({k \in 1..Len(s) : s[k] = x})
+NoFnIn(s) == \A k \in 1..Len(s) : ~IsF(s[k])
+
+VecMonads == {"inc", "dec", "neg", "dbl", "r1", "r0", "sq", "sign", "abs", "parity", "compl", "halve", "r0i", "r1x"}
+
 Monad(e, a) ==
-    CASE e = "inc" -> Mo("inc", a)
+    CASE e \in VecMonads -> Mo(e, a)
+      [] e = "even" -> IF IsI(a) THEN VI(IF a.i % 2 = 0 THEN 1 ELSE 0)          \* NOT vectorising: a list's length
+                      ELSE IF IsL(a) THEN VI(IF Len(a.l) % 2 = 0 THEN 1 ELSE 0) ELSE UNDEF("even-of-function")
+      [] e = "div3" -> IF IsI(a) THEN VI(IF a.i % 3 = 0 THEN 1 ELSE 0)
+                      ELSE IF IsL(a) THEN VI(IF Len(a.l) = 1 THEN 1 ELSE 0) ELSE UNDEF("div3-of-function")
+      [] e = "hrem" -> IF IsL(a) THEN VL(IF a.l = <<>> THEN <<>> ELSE Tail(a.l)) ELSE UNDEF("head-remove-of-scalar")
+      [] e = "trem" -> IF IsL(a) THEN VL(IF a.l = <<>> THEN <<>> ELSE SubSeq(a.l, 1, Len(a.l) - 1)) ELSE UNDEF("tail-remove-of-scalar")
+      [] e \in {"max", "min"} ->
+           IF ~IsL(a) THEN UNDEF("max-of-scalar")
+           ELSE LET fl == Flatten(a.l)
+                IN IF fl = <<>> THEN VL(<<>>)
+                   ELSE IF ~AllInts(fl) THEN UNDEF("max-domain")
+                   ELSE VI(IF e = "max" THEN MaxOf(fl) ELSE MinOf(fl))
+      [] e = "prod" -> IF ~IsL(a) THEN UNDEF("product-of-scalar")
+                       ELSE IF a.l = <<>> THEN VI(0)                           \* foldl of nothing
+                       ELSE ProdFrom(Head(a.l), Tail(a.l))
+      [] e = "lenr1" -> IF IsL(a) THEN VL(RangeSeq(1, Len(a.l))) ELSE UNDEF("length-range-of-scalar")
+      [] e = "lenr0" -> IF IsL(a) THEN VL(RangeSeq(0, Len(a.l) - 1)) ELSE UNDEF("length-range-of-scalar")
+      [] e = "alleq" -> IF IsL(a) /\ NoFnIn(a.l) THEN VI(IF \A k \in 1..Len(a.l) : a.l[k] = a.l[1] THEN 1 ELSE 0)
+                       ELSE UNDEF("all-equal-domain")
+      [] e = "any" -> IF IsL(a) /\ NoFnIn(a.l) THEN VI(IF \E k \in 1..Len(a.l) : PyTruthy(a.l[k]) THEN 1 ELSE 0)
+                     ELSE UNDEF("any-domain")
+      [] e = "all" -> IF IsL(a) /\ NoFnIn(a.l) THEN VI(IF \A k \in 1..Len(a.l) : PyTruthy(a.l[k]) THEN 1 ELSE 0)
+                     ELSE UNDEF("all-domain")
+      [] e = "deltas" -> IF IsL(a) THEN VL([k \in 1..(Len(a.l) - 1) |-> Dy("sub", a.l[k + 1], a.l[k])])
+                        ELSE UNDEF("deltas-of-scalar")
+      [] e = "cumsum" -> IF ~IsL(a) THEN UNDEF("cumsum-of-scalar")
+                        ELSE IF a.l = <<>> THEN VL(<<>>)
+                        ELSE VL(<<Head(a.l)>> \o RunningSums(Head(a.l), Tail(a.l)))
+      [] e = "inc" -> Mo("inc", a)
       [] e = "dec" -> Mo("dec", a)
       [] e = "neg" -> Mo("neg", a)
       [] e = "dbl" -> Mo("dbl", a)
@@ -170,7 +229,23 @@ Monad(e, a) ==
       [] OTHER -> UNDEF("monad-unknown")
 
 Dyad(e, a, b) ==     \* a = lhs (deeper), b = rhs (top)
-    CASE e \in {"add", "sub", "mul", "eq", "lt", "gt"} -> Dy(e, a, b)
+    CASE e \in {"add", "sub", "mul", "eq", "lt", "gt", "le", "ge", "mod", "idiv"} -> Dy(e, a, b)
+      [] e = "ne" -> IF IsF(a) \/ IsF(b) THEN UNDEF("ne-fn") ELSE VI(IF a = b THEN 0 ELSE 1)     \* NOT vectorising
+      [] e = "dmax" -> IF IsI(a) /\ IsI(b) THEN (IF a.i > b.i THEN a ELSE b) ELSE UNDEF("max-types")
+      [] e = "dmin" -> IF IsI(a) /\ IsI(b) THEN (IF a.i < b.i THEN a ELSE b) ELSE UNDEF("min-types")
+      [] e = "absdiff" -> IF IsI(a) /\ IsI(b) THEN MkI(Abs(a.i - b.i)) ELSE UNDEF("absdiff-types")
+      \* prepend is merge with the operands exchanged (PrependIsMerge: the type table always hits)
+      [] e = "prepend" -> IF IsL(a) /\ IsL(b) THEN VL(b.l \o a.l)
+                         ELSE IF IsL(b) /\ IsI(a) THEN VL(Append(b.l, a))
+                         ELSE IF IsI(b) /\ IsL(a) THEN VL(<<b>> \o a.l)
+                         ELSE UNDEF("prepend-types")
+      \* membership / count: with one list the list is searched; with two, the deeper one
+      [] e = "contains" -> IF IsL(a) /\ ~IsF(b) THEN VI(IF \E k \in 1..Len(a.l) : a.l[k] = b THEN 1 ELSE 0)
+                          ELSE IF IsI(a) /\ IsL(b) THEN VI(IF \E k \in 1..Len(b.l) : b.l[k] = a THEN 1 ELSE 0)
+                          ELSE UNDEF("contains-types")
+      [] e = "count" -> IF IsL(a) /\ ~IsF(b) THEN VI(CountOf(a.l, b))
+                       ELSE IF IsI(a) /\ IsL(b) THEN VI(CountOf(b.l, a))
+                       ELSE UNDEF("count-types")
       [] e = "pair" -> VL(<<a, b>>)
       [] e = "merge" -> IF IsL(a) /\ IsL(b) THEN VL(a.l \o b.l)
                     ELSE IF IsL(a) /\ IsI(b) THEN VL(Append(a.l, b))
@@ -180,6 +255,9 @@ Dyad(e, a, b) ==     \* a = lhs (deeper), b = rhs (top)
       [] e = "or" -> IF IsF(a) \/ IsF(b) THEN UNDEF("or-fn") ELSE IF PyTruthy(a) THEN a ELSE b
       [] OTHER -> UNDEF("dyad-unknown")
 
-MonadKeys == {"inc", "dec", "neg", "dbl", "r1", "r0", "wrap", "sum", "len", "head", "tail", "flat", "rev", "uniq", "sort", "not"}
-DyadKeys == {"add", "sub", "mul", "eq", "lt", "gt", "pair", "merge", "and", "or"}
+MonadKeys == VecMonads \cup {"wrap", "sum", "len", "head", "tail", "flat", "rev", "uniq", "sort", "not",
+                             "even", "div3", "hrem", "trem", "max", "min", "prod", "lenr1", "lenr0", "alleq", "any", "all",
+                             "deltas", "cumsum"}
+DyadKeys == {"add", "sub", "mul", "eq", "lt", "gt", "pair", "merge", "and", "or",
+             "le", "ge", "mod", "idiv", "ne", "dmax", "dmin", "absdiff", "prepend", "contains", "count"}
 ====
